@@ -627,5 +627,10 @@ def run(rep, tier):
         rep.call(state_independence, rep, prog, "C09.state-independence")
         rep.call(clone_config, rep, prog, "C09.clone-config")
         rep.call(backend_writes, rep, prog, "C09.backend-writes")
+        # the premultiplied scratch image is overwritten completely: every chunk body of the
+        # two-image alpha routines stores on all its paths
+        from ..engines import row_coverage
+        rep.call(row_coverage.divide_every_chunk, rep, prog, "C09.chunk-stores",
+                 {"x86": 12, "x86-rayon": 12, "wasm": 2}.get(cfg, 0))
         rep.call(state_fields, rep, prog, "C09.state-fields")
         rep.call(index_rules.scratch_grow, rep, prog, "C09.scratch-grow")
